@@ -1084,6 +1084,21 @@ func (e *Env) callExpr(x *ECall) tv {
 		k := u.evalTerm(e, x.Args[1])
 		d := u.mapGet(e.st, dom, ArrSort(SRef, ArrSort(ks, SBool)))
 		return tv{Select(Select(d, m.v.(*Term)), k), types.Typ[types.Bool]}
+	case "held":
+		// held(x.mtx): the unit holds the mutex field mtx of *x at this point (tracked by
+		// the Lock / Unlock calls of the unit; used in `requires !held(..)` of a function
+		// that takes that lock itself - sync.Mutex is not reentrant)
+		sel, ok := x.Args[0].(*ESel)
+		if !ok {
+			e.fail("held(x.mutexField) expected")
+		}
+		base := e.eval(sel.X)
+		bt, ok := base.v.(*Term)
+		if !ok {
+			e.fail("held(): pointer base expected")
+		}
+		_, isHeld := e.st.held[bt.S+"|"+sel.Name]
+		return tv{BoolLit(isHeld), types.Typ[types.Bool]}
 	case "isnil":
 		r := e.eval(x.Args[0])
 		t := r.v.(*Term)
